@@ -25,7 +25,9 @@ Renderable ==    \* exception class name -> response code
 
 RenderableOutcome(o) == \E n \in DOMAIN Renderable : o = "raise:" \o n
 BareOutcomes == {"raise:py:KeyError", "raise:py:AssertionError", "raise:py:ValueError", "raise:py:RuntimeError",
-                 "raise:py:Exception", "ret:none", "ret:str", "ret:bytes", "ret:int", "badrender"}
+                 "raise:py:Exception", "ret:none", "ret:str", "ret:bytes", "ret:int", "badrender",
+                 \* a message that passes the renderer but cannot be serialised (str payload, option value out of range)
+                 "unencodable:payload", "unencodable:option"}
 
 DefaultCode(method) == IF method \in {1, 5} THEN C(2,5) ELSE IF method = 4 THEN C(2,2) ELSE C(2,4)
 
